@@ -55,17 +55,15 @@ def parse_trace(lines):
     """-> (executed list, calls [(target, rc, kind)], args {target: (a1,a2,a3,pwd)}, exits {target: rc})"""
     ex, calls, args, exits = [], [], {}, {}
     for l in lines:
-        if l.startswith("S "):
-            ex.append(l.split(" ")[1])
-        elif l.startswith("R "):
-            parts = l.split(" ")
-            calls.append((parts[1], int(parts[2]), parts[3]))
-        elif l.startswith("A "):
-            t, a1, a2, a3, pwd = l[2:].split("|")
-            args[t] = (a1, a2, a3, pwd)
-        elif l.startswith("X "):
-            parts = l.split(" ")
-            exits[parts[1]] = int(parts[2])
+        f = l.split("|")
+        if f[0] == "S":
+            ex.append(f[1])
+        elif f[0] == "R":
+            calls.append((f[1], int(f[2]), f[3]))
+        elif f[0] == "A":
+            args[f[1]] = (f[2], f[3], f[4], f[5])
+        elif f[0] == "X":
+            exits[f[1]] = int(f[2])
     return ex, calls, args, exits
 
 
@@ -263,6 +261,10 @@ class HistoryRunner:
                     keep.append(t)
             targets = keep
         argv = ["redo" if kind == "redo" else "redo-ifchange"] + [spell(t, cwd) for t in targets]
+        if getattr(self, "_spell_override", None):
+            argv = argv[:1] + [self._spell_override]
+        if getattr(self, "_argv_override", None):
+            argv = list(self._argv_override)
         pre = {p: (f.data, f.ver, f.owner) for p, f in m.fs.items()}
         nested = has_nested_csum(m)
         self.pre_csum = {t: r.csum for t, r in m.rec.items()}
